@@ -1,0 +1,40 @@
+//! Verification hooks: per-thread work counters. Only compiled with
+//! `--cfg ohrs_verif`, never used by the library itself.
+
+use std::cell::RefCell;
+
+use chrono::NaiveDate;
+
+/// Work done by the current thread since the last call to [`take_stats`].
+#[derive(Clone, Debug, Default)]
+pub struct Stats {
+    /// Number of calls to `schedule_at`.
+    pub schedule_at_calls: u64,
+    /// Number of day jumps performed by the interval iterator.
+    pub jumps: u64,
+    /// The longest jumps performed by the interval iterator (from, to).
+    pub long_jumps: Vec<(NaiveDate, NaiveDate)>,
+}
+
+thread_local! {
+    static STATS: RefCell<Stats> = RefCell::default();
+}
+
+/// Read and reset the counters of the current thread.
+pub fn take_stats() -> Stats {
+    STATS.with_borrow_mut(std::mem::take)
+}
+
+pub(crate) fn notify_schedule_at() {
+    STATS.with_borrow_mut(|s| s.schedule_at_calls += 1)
+}
+
+pub(crate) fn notify_jump(from: NaiveDate, to: NaiveDate) {
+    STATS.with_borrow_mut(|s| {
+        s.jumps += 1;
+
+        if (to - from).num_days() > 1 && s.long_jumps.len() < 64 {
+            s.long_jumps.push((from, to));
+        }
+    })
+}
